@@ -24,7 +24,7 @@ VARIABLES objs,     \* [1..MaxId -> [used, name, labs]]
 state == <<objs, dsaxes, vars, direct>>
 allvars == <<objs, dsaxes, vars, direct, hist>>
 
-Keys == {"a", "b"}
+Keys == {"a", "x"}        \* one of the keys is also the name of a dimension: ds["x"] is then the variable, not the labels of x
 Base == {"x", "y", "z"}
 Alt(n) == CASE n = "x" -> "X" [] n = "y" -> "Y" [] n = "z" -> "Z" [] n = "X" -> "x" [] n = "Y" -> "y" [] n = "Z" -> "z" [] OTHER -> n
 L1 == <<2, 4>>
@@ -230,7 +230,7 @@ Next ==
   \/ SetDims([q \in 1..Len(dsaxes) |-> Alt(NameOf(dsaxes[q]))])
   \/ Len(dsaxes) >= 2 /\ (SetDims(Rev(DsNames)) \/ SetDims(Tail(DsNames) \o <<Head(DsNames)>>))
   \/ \E kind \in {"copy", "cross_assign", "rename_axes_copy", "set_axis_copy", "rename_keys_copy", "dim_variable"} :
-        Len(dsaxes) > 0 /\ Pure(kind, [d |-> NameOf(dsaxes[1]), n |-> "q", k |-> vars[1].key, labs |-> [j \in 1..Len(objs[dsaxes[1]].labs) |-> 10 + j]])
+        Len(dsaxes) > 0 /\ (kind = "dim_variable" => ~HasKey(NameOf(dsaxes[1]))) /\ Pure(kind, [d |-> NameOf(dsaxes[1]), n |-> "q", k |-> vars[1].key, labs |-> [j \in 1..Len(objs[dsaxes[1]].labs) |-> 10 + j]])
 
 EmitEdge == Emit => PrintT(ToJson([op |-> "ds_path", path |-> hist']))
 NextEmit == Next /\ EmitEdge
